@@ -238,7 +238,34 @@ def c16(cx):
                    "handlers terminate (the scripted handler returns once released)"])
 
 
-PROPS = {"C16": c16, "C20": c20, "C10": c10, "C19": c19, "C12": c12, "C01": c01, "C13": c13, "C05": c05, "C06": c06, "C07": c07, "C08": c08, "C17": c17}
+def c14(cx):
+    build_harness(cx)
+    thorough = cx.tier == "thorough"
+    b1 = model_check(cx, "MC_C14", consts=({"MaxRows": 2, "MaxCuts": 2} if thorough else None), workers=(8 if thorough else 1),
+                     timeout=3000)
+    files = [("tlc", subsample(cx, b1, 60000 if thorough else 5000))]
+    files.append(("rand", gen_random(cx, "C14", 20000 if thorough else 1500)))
+    for tag, b in files:
+        sample_behaviours(cx, b)
+        trace, crash = play(cx, b, tag, cmd="copybin")
+        rejected = [] if crash else validate(cx, trace, "Trace_PgCopyBin")
+        judge(cx, b, trace, rejected, crash, "Trace_PgCopyBin", play_cmd="copybin")
+    count_distinct(cx, *[f[1] for f in files])
+    cx.cov["trusted_base"] = TB_CONN + ["harness: own binary encoders for the supported types, canonical rendering of decoded Go values"]
+    return finish(cx, "model_checking",
+                  "TLC runs the reassembling row reader of PgCopyBin on every scenario of the bounded family (tables up to "
+                  "MaxRows x 2 columns with NULL / empty / 1- and 2-cell values; header and trailer present or not; every "
+                  "field-count corruption of every row; truncation after every cell; every set of up to MaxCuts cuts - "
+                  "inside signature, flags, count, length and value - plus one-cell-per-chunk) and checks that the rows and "
+                  "the end status equal the chunk-independent expectation, never a fabricated row. Each scenario is encoded "
+                  "by the harness with real typed values, cut into CopyData messages at the corresponding byte offsets and "
+                  "read on the real server through NewBinaryColumnReader; TLC validates the returned rows (canonical values, "
+                  "NULLs) and the end (EOF / error). Random driver: 1-4 columns, 6 rows, 13 types, byte-level cuts down to "
+                  "one byte per chunk, empty chunks, corrupted counts, truncation at any byte.",
+                  ASSUME_CONN + ["a corrupted field LENGTH that is not a truncation cannot be detected by any reader and is outside the statement"])
+
+
+PROPS = {"C14": c14, "C16": c16, "C20": c20, "C10": c10, "C19": c19, "C12": c12, "C01": c01, "C13": c13, "C05": c05, "C06": c06, "C07": c07, "C08": c08, "C17": c17}
 
 
 def replay(cx, path):
